@@ -6,6 +6,7 @@ Import ListNotations.
 (* the generated constants the model's control flow depends on *)
 Lemma v2_truncates_src_ok : Consts.resume_v2_truncate = true. Proof. reflexivity. Qed.
 Lemma v3_keeps_src_ok : Consts.resume_v3_truncate = false. Proof. reflexivity. Qed.
+Lemma step_guard_src_ok : Consts.resume_step_guard = true. Proof. reflexivity. Qed.
 Lemma step_positive_src_ok : (0 < Consts.prefix_hash_step)%N. Proof. reflexivity. Qed.
 
 (* ---- lists ---- *)
@@ -152,38 +153,53 @@ Section Proofs.
     end.
 
   Lemma recv_nomatch : forall l st, r_match st = false ->
-    recv_hashes H dst (map mk l ++ [Over]) st = ROver st.
+    recv_hashes B H dst (map mk l ++ [Over]) st = ROver st.
   Proof.
     induction l as [|s l IH]; intros st Hm; cbn [map app recv_hashes mk]; [reflexivity|].
     rewrite Hm. cbn [negb]. apply IH. exact Hm.
   Qed.
 
-  Lemma recv_step : forall s h rest cur acks0, (cur <= s)%nat -> (s <= length dst)%nat ->
-    recv_hashes H dst (Hash (Z.of_nat s) h :: rest) (mkR true (Z.of_nat cur) (firstn cur dst) cur acks0) =
-    recv_hashes H dst rest
+  Lemma recv_step : forall s h rest cur acks0, (cur < s)%nat -> (s - cur <= Bn)%nat -> (s <= length dst)%nat ->
+    recv_hashes B H dst (Hash (Z.of_nat s) h :: rest) (mkR true (Z.of_nat cur) (firstn cur dst) cur acks0) =
+    recv_hashes B H dst rest
       (mkR (list_eqb h (H (firstn s dst)))
            (if list_eqb h (H (firstn s dst)) then Z.of_nat s else Z.of_nat cur)
            (firstn s dst) s (acks0 ++ [mkAck (Z.of_nat s) (list_eqb h (H (firstn s dst)))])).
   Proof.
-    intros s h rest cur acks0 Hcs Hsl.
+    intros s h rest cur acks0 Hcs Hgap Hsl.
     cbn [recv_hashes r_match r_mstep r_fed r_off r_acks negb].
+    destruct (Z.leb_spec (Z.of_nat s - Z.of_nat cur) 0); [lia|].
+    destruct (Z.ltb_spec (Z.of_N B) (Z.of_nat s - Z.of_nat cur)); [unfold Resume.Bn in Hgap; lia|].
+    rewrite andb_false_r.
     destruct (Z.ltb_spec (Z.of_nat s - Z.of_nat cur) 0); [lia|].
     destruct (Z.leb_spec (Z.of_nat cur + (Z.of_nat s - Z.of_nat cur)) (Z.of_nat (length dst))); [|lia].
     replace (Z.to_nat (Z.of_nat s - Z.of_nat cur)) with (s - cur)%nat by lia.
     rewrite firstn_app_skipn. replace (cur + (s - cur))%nat with s by lia. reflexivity.
   Qed.
 
-  Lemma recv_honest : forall l cur acks0, incr cur l -> Forall (fun s => s <= length dst)%nat l ->
-    exists st', recv_hashes H dst (map mk l ++ [Over]) (mkR true (Z.of_nat cur) (firstn cur dst) cur acks0) = ROver st'
+  (* consecutive announced steps are at most one block apart (the receiver's guard) *)
+  Fixpoint gaps (cur : nat) (l : list nat) : Prop :=
+    match l with [] => True | s :: r => (s - cur <= Bn)%nat /\ gaps s r end.
+
+  Lemma steps_gaps : forall fuel stops size step, gaps step (steps_from fuel stops size step).
+  Proof.
+    induction fuel as [|fuel IH]; intros stops size step; cbn [steps_from].
+    - destruct (_ && _); exact I.
+    - destruct (_ && _); [|exact I]. cbn [gaps]. split; [lia | apply IH].
+  Qed.
+
+  Lemma recv_honest : forall l cur acks0, incr cur l -> gaps cur l -> Forall (fun s => s <= length dst)%nat l ->
+    exists st', recv_hashes B H dst (map mk l ++ [Over]) (mkR true (Z.of_nat cur) (firstn cur dst) cur acks0) = ROver st'
       /\ r_mstep st' = Z.of_nat (last (take_good l) cur) /\ r_acks st' = acks0 ++ acks_of l.
   Proof.
-    induction l as [|s l IH]; intros cur acks0 Hin Hall.
+    induction l as [|s l IH]; intros cur acks0 Hin Hgp Hall.
     - cbn [map app recv_hashes take_good acks_of last]. eexists. split; [reflexivity|].
       cbn [r_mstep r_acks]. rewrite app_nil_r. auto.
-    - cbn [incr] in Hin. destruct Hin as [Hcs Hin]. inversion Hall as [|? ? Hs Hall']; subst.
+    - cbn [incr] in Hin. destruct Hin as [Hcs Hin]. cbn [gaps] in Hgp. destruct Hgp as [Hg1 Hgp].
+      inversion Hall as [|? ? Hs Hall']; subst.
       cbn [map app]. unfold mk at 1. rewrite recv_step by lia.
       cbn [take_good acks_of]. fold (good s). destruct (good s) eqn:Hg.
-      + destruct (IH s (acks0 ++ [mkAck (Z.of_nat s) true]) Hin Hall') as [st' [Hr [Hm Ha]]].
+      + destruct (IH s (acks0 ++ [mkAck (Z.of_nat s) true]) Hin Hgp Hall') as [st' [Hr [Hm Ha]]].
         exists st'. split; [exact Hr|]. rewrite last_cons_default. split; [exact Hm|].
         rewrite Ha, <- app_assoc. reflexivity.
       + rewrite recv_nomatch by reflexivity. eexists. split; [reflexivity|]. cbn [r_mstep r_acks last]. auto.
@@ -348,7 +364,7 @@ Section Proofs.
     fold l. destruct (steps_incr size stops size 0) as [Hin Hall]; [lia|]. fold l in Hin, Hall.
     assert (Hall' : Forall (fun s => s <= length dst)%nat l).
     { eapply Forall_impl; [|exact Hall]. cbn. intros a Ha. unfold size in Ha. lia. }
-    destruct (recv_honest l 0 [] Hin Hall') as [st' [Hr [Hm Ha]]].
+    destruct (recv_honest l 0 [] Hin (steps_gaps size stops size 0) Hall') as [st' [Hr [Hm Ha]]].
     unfold r_init. change (mkR true 0%Z [] 0 []) with (mkR true (Z.of_nat 0) (firstn 0 dst) 0 []).
     rewrite Hr, Ha. cbn [app].
     unfold recv_hash_acks.
@@ -538,17 +554,34 @@ Proof.
   - intros Hle. rewrite (lcp_firstn s src dst Hle). reflexivity.
 Qed.
 
-(* ---- the receiver on a peer-chosen step (the C12 sink make([]byte, hash.Step - matchStep)) ---- *)
-Lemma recv_peer_step : forall H dst step h rest st, r_match st = true ->
+(* ---- the receiver on a peer-chosen step (the former C12 sink make([]byte, hash.Step - matchStep)) ----
+   with the guard of recvPrefixHash (pinned by step_guard_src_ok): a step that does not advance
+   (<= matchStep, repeated steps included) or advances by more than one block is refused before
+   anything is allocated, read or answered; whatever is allocated is at most B bytes *)
+Lemma recv_peer_step : forall B H dst step h rest st, r_match st = true ->
   let d := (step - r_mstep st)%Z in
-  ((d < 0)%Z -> recv_hashes H dst (Hash step h :: rest) st = RPanic st d) /\
-  ((0 <= d)%Z -> (Z.of_nat (length dst) < Z.of_nat (r_off st) + d)%Z ->
-     recv_hashes H dst (Hash step h :: rest) st = RReadErr st d).
+  ((d <= 0 \/ Z.of_N B < d)%Z -> recv_hashes B H dst (Hash step h :: rest) st = RInvalid st step) /\
+  ((0 < d <= Z.of_N B)%Z -> (Z.of_nat (length dst) < Z.of_nat (r_off st) + d)%Z ->
+     recv_hashes B H dst (Hash step h :: rest) st = RReadErr st d).
 Proof.
-  intros H dst step h rest st Hm d. cbn [recv_hashes]. rewrite Hm. cbn [negb]. fold d. split.
-  - intros Hd. destruct (Z.ltb_spec d 0); [reflexivity | lia].
-  - intros Hd Hbig. destruct (Z.ltb_spec d 0); [lia|].
+  intros B H dst step h rest st Hm d. cbn [recv_hashes]. rewrite Hm, step_guard_src_ok. cbn [negb andb]. fold d. split.
+  - intros Hd. destruct (Z.leb_spec d 0); [reflexivity|].
+    destruct (Z.ltb_spec (Z.of_N B) d); [reflexivity | lia].
+  - intros Hd Hbig. destruct (Z.leb_spec d 0); [lia|]. destruct (Z.ltb_spec (Z.of_N B) d); [lia|]. cbn [orb].
+    destruct (Z.ltb_spec d 0); [lia|].
     destruct (Z.leb_spec (Z.of_nat (r_off st) + d) (Z.of_nat (length dst))); [lia | reflexivity].
+Qed.
+
+(* no message sequence whatsoever makes the receiver panic (the guard is in place) *)
+Lemma recv_never_panics : forall B H dst msgs st st' n, recv_hashes B H dst msgs st <> RPanic st' n.
+Proof.
+  intros B H dst msgs. induction msgs as [|m msgs IH]; intros st st' n; cbn [recv_hashes]; [discriminate|].
+  destruct m as [hstep h|]; [|discriminate].
+  destruct (negb (r_match st)); [apply IH|]. rewrite step_guard_src_ok. cbn [andb].
+  destruct (Z.leb_spec (hstep - r_mstep st) 0); cbn [orb]; [discriminate|].
+  destruct (Z.ltb_spec (Z.of_N B) (hstep - r_mstep st)); [discriminate|].
+  destruct (Z.ltb_spec (hstep - r_mstep st) 0); [lia|].
+  destruct (_ <=? _)%Z; [apply IH | discriminate].
 Qed.
 
 (* ---- the property theorems (closed) ---- *)
